@@ -309,7 +309,7 @@ PROPS["C02"] = dict(
           "corrupted. After EVERY sync every key/value of the destination store is re-hashed with the CID's own function and length, hooks must "
           "name only blocks stored intact, the corrupted sync must fail iff the corrupted response was actually consumed, and the store after "
           "the honest retry must equal the publisher's. distinct_nontrivial = distinct (hash prefix, corruption, position, mode) tuples."),
-    floors={"quick": {"corrupted_response_consumed": 1500, "audited_store_entries": 5000, "two_address_cases": 200, "hash_identity": 100, "hash_sha2-256/16": 100}},
+    floors={"quick": {"corrupted_response_consumed": 1500, "audited_store_entries": 5000, "two_address_cases": 200, "big_block_cases": 40, "hash_identity": 100, "hash_sha2-256/16": 100}},
     level_text=("Fault enumeration over (hash prefix x corruption kind x request position x mode), sampled with a seeded PRNG: the real "
                 "subscriber syncs from a real publisher whose responses are corrupted in flight; the destination store is audited entry by entry."),
     level_note="Trusted: go-multihash for the audit re-hash (same library the code under test uses; an independent implementation is not available offline).",
